@@ -210,6 +210,10 @@ def theorems_of(prop):
     if not os.path.exists(path):
         return []
     body = strip_comments(open(path).read())
+    # a second file of property theorems (<prop>b.lean), when <prop>.lean imports it
+    pathb = os.path.join(LEAN, "CvProps", prop + "b.lean")
+    if os.path.exists(pathb) and re.search(r"^import\s+CvProps\.%sb\s*$" % prop, body, flags=re.M):
+        body = body + "\n" + strip_comments(open(pathb).read())
     names = []
     ns = []
     for line in body.splitlines():
